@@ -64,7 +64,7 @@ def undeclared_visitor_rule(ctx: Ctx, rid: str) -> None:
     vn = ci.methods.get("visit_Name")
     ctx.need(vn is not None, "UndeclaredNameVisitor.visit_Name vanished")
     adds = [c for c in ast.walk(vn) if isinstance(c, ast.Call) and ast.unparse(c.func) == "self.undeclared.add"]
-    ok = len(adds) == 1 and {g for g, pol in astq.guard_texts(vn, adds[0]) if pol} == {"node.ctx == 'load' and node.name in self.names"}
+    ok = len(adds) == 1 and sorted(astq.guard_atoms(vn, adds[0])) == [("node.ctx == 'load'", True), ("node.name in self.names", True)]
     ctx.check(ok, "visit_Name:records", "compiler:UndeclaredNameVisitor.visit_Name", "records every load of a watched name", "visit_Name must record every load of a watched name, under no further condition", ci.loc(vn))
     ctx.floor("UndeclaredNameVisitor methods besides visit_Name", n, 1)
     # when is a loop compiled with a LoopContext?  recursive, `loop` referenced anywhere in the
@@ -128,7 +128,9 @@ def rest(ctx: Ctx) -> None:
     r = astq.returns(fn)
     ctx.check(len(r) == 1 and astq.linear_cmp(r[0].value) == ({"self.index0": 1}, "=="), "form:first", "runtime:LoopContext.first", "first", "loop.first must be index0 == 0", lc.loc(fn))
     for cls in (lc, ac):
-        fn = cls.methods["length"]
+        from ..normalize import norm as _norm
+
+        fn = _norm(cls.methods["length"])  # a local naming len(<drained list>) is inlined
         # the local holding the drained items (whatever it is called)
         drains = [n for n in ast.walk(fn) if isinstance(n, ast.Assign) and isinstance(n.targets[0], ast.Name) and ast.unparse(n.value) in ("list(self._iterator)", f"[{'x'} async for x in self._iterator]") or (isinstance(n, ast.Assign) and isinstance(n.targets[0], ast.Name) and isinstance(n.value, ast.ListComp) and "self._iterator" in ast.unparse(n.value.generators[0].iter) and ast.unparse(n.value.elt) == ast.unparse(n.value.generators[0].target))]
         dv = drains[0].targets[0].id if len(drains) == 1 else "iterable"  # type: ignore[attr-defined]
@@ -141,7 +143,7 @@ def rest(ctx: Ctx) -> None:
         ctx.check("self._length = len(self._iterable)" in s and "except TypeError" in s and f"self._iterator = self._to_iterator({dv})" in s, f"length:shape:{cls.name}", f"runtime:{cls.name}.length", "sized first, then drain and re-wrap",
                   "length must use len() when available, otherwise drain the iterator into a list and keep iterating over that list", cls.loc(fn))
     cy = lc.methods["cycle"]
-    r = astq.returns(cy)
+    r = astq.returns(_norm(cy))
     ctx.check(len(r) == 1 and ast.unparse(r[0].value) == "args[self.index0 % len(args)]", "cycle", "runtime:LoopContext.cycle", "cycle index", "loop.cycle must pick args[index0 % len(args)]", lc.loc(cy))
     ch = lc.methods["changed"]
     s = ast.unparse(ch)
